@@ -19,7 +19,7 @@ func init() {
 
 func MainC01(prop, tier string) int {
 	r := vk.New("C01", tier)
-	r.Rule = "(list of 0..40 lines over an alphabet with mixed case, accents, blanks and the operator characters) x (well-formed query from the grammar: 1-3 AND groups x 1-3 alternatives x six term kinds x negation, bodies with mixed case / accents / escaped spaces; half of them derived from a line so that they match) x (random subset of --exact, +x, -i|+i, --literal, --algo, --no-sort, --tac, --scheme, --tiebreak). The emitted multiset must equal the lines the independent reference evaluator accepts. Library mode for volume, the built binary over stdin for a share. distinct = (query shape, option set, some-matched/none/all) signatures"
+	r.Rule = "(list of 0..40 lines over an alphabet with mixed case, accents, blanks and the operator characters) x (well-formed query from the grammar: 1-3 AND groups x 1-3 alternatives x six term kinds x negation, bodies with mixed case / accents / escaped spaces; half of them derived from a line so that they match) x (random subset of --exact, +x, -i|+i, --literal, --algo, --no-sort, --tac, --scheme, --tiebreak). The emitted multiset must equal the lines the independent reference evaluator accepts. Library mode for volume, the built binary over stdin for a share. Query sequences: the real Matcher with its pattern and chunk caches scans 100..1000 lines (full chunks) for sequences of related queries (A, A B, B A, A T, ... in random order); after every scan the matched lines must be what the reference accepts for that query alone. distinct = (query shape, option set, some-matched/none/all) signatures"
 	r.Assumptions = []string{"reference evaluator written from README/man (refq), sharing only the accent table with fzf", "well-formed queries only: operators applied to a non-empty body that does not itself begin or end with an operator character; no literal tab in queries", "lines contain no newline"}
 	if _, err := fzfrun.Bin(); err != nil {
 		r.Inconclusive(err.Error())
@@ -28,6 +28,8 @@ func MainC01(prop, tier string) int {
 		return r.Finish()
 	}
 	r.Fanout("c01", vk.NumWorkers(), 40*time.Minute)
+	r.Fanout("c01cache", vk.NumWorkers(), 40*time.Minute)
+	r.Floor("sequence_scans", 100)
 	r.Floor("lines_evaluated", 10000)
 	r.Floor("lines_matched", 1000)
 	r.Floor("proc_runs", 10)
